@@ -45,6 +45,65 @@ NOT_OWNING = {
 COUNTED = ("struct array_s *", "struct mapping_s *", "struct object_s *", "struct funptr_s *", "struct buffer_s *", "struct program_s *", "struct sentence_s *", "char *", "string_or_func_t")
 
 
+FUNPTR_COPY_DESC = "wherever a funptr_t is copied wholesale (*new = *old), the copy's own reference count is set to 1 and every counter dealloc_funp() will decrement for it (args->ref, prog->func_ref) is incremented under exactly the condition dealloc_funp() tests - not under additional conditions"
+
+
+def funptr_copy_rule(run, prog, RULE):
+    df = run.need(prog.func("dealloc_funp"), "dealloc_funp")
+    run.saw(df)
+    # releases in dealloc_funp: (kind, guard texts)
+    def norm(txt, names):
+        for nm in names:
+            txt = txt.replace(nm + "->", "$->")
+        return txt.replace("0x0f", "15").replace("FP_MASK", "15")
+
+    def guard_texts(f, blk_id, names, skip_blocks=()):
+        out = set()
+        for c, t, B in cfgq.guards(f, blk_id):
+            if B in skip_blocks:
+                continue
+            c0, t0 = normalize_cond(c, t)
+            out.add((norm(show(strip(c0)), names), t0))
+        return out
+    dparam = [p.get("n") for p in (df.params or [])]
+    rel_func = None
+    for b, i, n in df.nodes():
+        if n.get("k") == "Un" and n.get("op") == "--" and strip(n["e"]).get("f") == "func_ref":
+            rel_func = guard_texts(df, b.id, dparam)
+    run.need(rel_func is not None, "func_ref-- in dealloc_funp")
+    ncopy = 0
+    for f in sorted(prog.functions(), key=lambda x: (x.file, x.line)):
+        copies = [(b, i, n) for b, i, n in f.nodes() if n.get("k") == "Asg" and n.get("op") == "=" and (strip(n["L"]).get("t") or "") in ("struct funptr_s", "funptr_t") and strip(n["L"]).get("k") == "Un" and strip(n["R"]).get("k") == "Un"]
+        for j, (b, i, n) in enumerate(copies):
+            ncopy += 1
+            run.saw(f)
+            newv = strip(strip(n["L"])["e"]).get("n")
+            oldv = strip(strip(n["R"])["e"]).get("n")
+            names = [x for x in (newv, oldv) if x]
+            base_guards = guard_texts(f, b.id, names)
+            why = []
+            # (1) own reference count reset
+            reset = [(b2, i2, n2) for b2, i2, n2 in f.nodes() if n2.get("k") == "Asg" and n2.get("op") == "=" and strip(n2["L"]).get("k") == "Mem" and strip(n2["L"]).get("f") == "ref" and newv in show(n2["L"]) and "hdr" in show(n2["L"]) and const_val(n2["R"]) == 1 and f.point_dominates((b.id, i), (b2.id, i2))]
+            if not reset:
+                why.append("the copy keeps the source's reference count (%s->hdr.ref is not set to 1): if the source has other holders the copy can never be freed" % newv)
+            # (2) func_ref acquired under dealloc's condition only
+            incs = [(b2, i2, n2) for b2, i2, n2 in f.nodes() if n2.get("k") == "Un" and n2.get("op") == "++" and strip(n2["e"]).get("f") == "func_ref" and f.point_dominates((b.id, i), (b2.id, i2))]
+            if not incs:
+                why.append("prog->func_ref is not incremented for the copy although dealloc_funp() will decrement it")
+            for b2, i2, n2 in incs:
+                extra = guard_texts(f, b2.id, names) - base_guards - rel_func
+                if extra:
+                    why.append("func_ref++ at line %s is additionally conditioned on %s, which dealloc_funp() does not test: when it is false the copy's deallocation drops a count it never took (program freed while the pointer is alive)" % (n2.get("l"), sorted(x[0] for x in extra)[:2]))
+            # (3) args
+            ainc = [(b2, i2, n2) for b2, i2, n2 in f.nodes() if n2.get("k") == "Un" and n2.get("op") == "++" and strip(n2["e"]).get("f") == "ref" and "args" in show(n2["e"]) and f.point_dominates((b.id, i), (b2.id, i2))]
+            if not ainc:
+                why.append("hdr.args->ref is not incremented for the copy")
+            run.ob(RULE, "funptr-copy:%s:%s:%d" % (rel(f.file), f.name, j), not why, "copy at line %s: own count reset, args and func_ref acquired under dealloc_funp()'s conditions" % n.get("l") if not why else "; ".join(why), f.file, n.get("l"), f.name,
+                   what="%s copies a function pointer but %s" % (f.name, why[0] if why else ""))
+    run.need(ncopy >= 1, "wholesale funptr_t copies (found %d)" % ncopy)
+
+
+
 def check(run, prog, tier):
     run.rule("C06-a", "release functions free every owning field of their record on every path (bypass only through the field's own NULL test); every pointer field of an owner record is classified", 14)
     run.rule("C06-c", "when a counted field is re-pointed (old = X->F; X->F = new; release(old)) the reference on the new value is taken before the old one is released", 1)
@@ -254,3 +313,57 @@ def check(run, prog, tier):
             run.ob("C06-d", "partial-release:%s:%s:%d" % (rel(f.file), f.name, j), why is None, why or "free_called_call() at line %s is reached only after the entry's argument array was transferred or found absent" % n.get("l"),
                    f.file, n.get("l"), f.name, what="%s releases a pending call with free_called_call() on a path where its argument array is still attached (leak of the array and everything it references)" % f.name)
     run.need(nsite >= 2, "free_called_call call sites outside free_call (found %d)" % nsite)
+
+    # ---- C06-f long-lived svalue globals are released (or handed over) before they are overwritten
+    run.rule("C06-f", "every overwrite of the owning globals catch_value / apply_ret_value is preceded, in the same function and with no LPC-running call in between, by free_svalue(&G) or by a hand-over of G to the value stack (or assigns a fresh constant after such a release)", 6)
+    OWNING_GLOBALS = ("catch_value", "apply_ret_value")
+    returning_lpc = cg.reaches(callgraph.LPC_SEEDS | {"<unknown>"}, barriers={"fatal"} | callgraph.RAISE_SEEDS)
+    nov = 0
+    for f in sorted(prog.functions(), key=lambda x: (x.file, x.line)):
+        if f.name in ("reset_interpreter",):
+            continue
+        ovs = []
+        for b, i, n in f.nodes():
+            if n.get("k") != "Asg" or n.get("op") != "=":
+                continue
+            l = strip(n["L"])
+            whole = l.get("k") == "Ref" and l.get("n") in OWNING_GLOBALS and l.get("d") in ("global", "static")
+            typ = l.get("k") == "Mem" and l.get("f") == "type" and strip(l["b"]).get("k") == "Ref" and strip(l["b"]).get("n") in OWNING_GLOBALS
+            if whole or typ:
+                ovs.append((b, i, n, l.get("n") if whole else strip(l["b"]).get("n")))
+        if not ovs:
+            continue
+        run.saw(f)
+        ordn = {}
+        for b, i, n, g in sorted(ovs, key=lambda x: x[2].get("l") or 0):
+            nov += 1
+            o = ordn.get(g, 0)
+            ordn[g] = o + 1
+            # release or hand-over points of g in this function
+            rel_pts = []
+            for b2, i2, n2 in f.nodes():
+                if n2.get("k") == "Call" and n2.get("fn") in ("free_svalue", "int_free_svalue") and n2.get("args") and g in show(n2["args"][0]):
+                    rel_pts.append((b2.id, i2))
+                if n2.get("k") == "Asg" and n2.get("op") == "=" and strip(n2["R"]).get("k") == "Ref" and strip(n2["R"]).get("n") == g and ("sp" in show(n2["L"])):
+                    rel_pts.append((b2.id, i2))   # *++sp = G : ownership moves to the stack
+            doms = [p for p in rel_pts if f.point_dominates(p, (b.id, i)) and p != (b.id, i)]
+            why = None
+            if not doms:
+                # a test that the old value is not counted (destruct_object compares the object it holds)
+                why = "no free_svalue(&%s) and no hand-over to the stack dominates this overwrite: the value it still holds (a thrown array, an earlier result) is never released" % g
+            else:
+                last = max(doms, key=lambda p: (f.dominates(p[0], b.id), p[1]))
+                # nothing that can run LPC (and refill G) between the release and the overwrite
+                region = cfgq.reach_set(f, [last[0]])
+                for b3, i3, n3 in f.calls():
+                    if b3.id in region and cg.callees_of_call(f, n3) & returning_lpc and ((b3.id, i3) > last or b3.id != last[0]) and f.point_dominates(last, (b3.id, i3)) and not f.point_dominates((b.id, i), (b3.id, i3)) and (b3.id, i3) != (b.id, i):
+                        # must lie on a path release -> overwrite
+                        if b.id in cfgq.reach_set(f, [b3.id]) or b3.id == b.id:
+                            why = "%s() at line %s can run LPC code between the release of %s and this overwrite (a throw() there refills it)" % (n3.get("fn") or "(*)", n3.get("l"), g)
+                            break
+            run.ob("C06-f", "overwrite:%s:%s:%s:%d" % (rel(f.file), f.name, g, o), why is None, why or "%s is released or handed over before it is overwritten at line %s" % (g, n.get("l")), f.file, n.get("l"), f.name,
+                   what="%s overwrites %s without releasing what it holds" % (f.name, g))
+    run.need(nov >= 6, "overwrites of catch_value/apply_ret_value (found %d)" % nov)
+
+    run.rule("C06-e", FUNPTR_COPY_DESC, 1)
+    funptr_copy_rule(run, prog, "C06-e")
